@@ -284,7 +284,7 @@ func laneSeq(c *ev.Ctx, id string, r *rand.Rand, steps int, cacheCfg string) {
 		case x < 6: // update
 			var sec *string
 			var uid, gid *int
-			kind := r.Intn(3)
+			kind := r.Intn(6)
 			switch kind {
 			case 0:
 				s := w.secret()
@@ -292,9 +292,22 @@ func laneSeq(c *ev.Ctx, id string, r *rand.Rand, steps int, cacheCfg string) {
 			case 1:
 				u := 1000 + r.Intn(50000)
 				uid = &u
-			default:
+			case 2:
 				g := 1000 + r.Intn(50000)
 				gid = &g
+			case 3: // one call changes the secret together with the ids
+				s := w.secret()
+				sec = &s
+				u, g := 1000+r.Intn(50000), 1000+r.Intn(50000)
+				uid, gid = &u, &g
+			case 4:
+				s := w.secret()
+				sec = &s
+				u := 1000 + r.Intn(50000)
+				uid = &u
+			default:
+				u, g := 1000+r.Intn(50000), 1000+r.Intn(50000)
+				uid, gid = &u, &g
 			}
 			resp := w.root.Admin("/update-user", s3c.Q("access", ak), updateBody(sec, uid, gid))
 			c.Eval(1)
@@ -319,7 +332,7 @@ func laneSeq(c *ev.Ctx, id string, r *rand.Rand, steps int, cacheCfg string) {
 			if gid != nil {
 				cur.GID = *gid
 			}
-			k := []string{"secret", "uid", "gid"}[kind]
+			k := []string{"secret", "uid", "gid", "secret+uid+gid", "secret+uid", "uid+gid"}[kind]
 			shape = append(shape, "update-"+k)
 			w.judgeAccount(id, "after-update-"+k, ak, cur, olds[ak])
 			c.Distinct("S|after-update-" + k)
